@@ -70,6 +70,129 @@ def guards_of(node, stop=None):
     return out
 
 
+def literal_dnf(test, pol=True, limit=64):
+    """disjunctive normal form of a boolean test: [[(atom, polarity), ...], ...]; atoms are non-boolean-operator nodes"""
+    if isinstance(test, ast.UnaryOp) and isinstance(test.op, ast.Not):
+        return literal_dnf(test.operand, not pol, limit)
+    if isinstance(test, ast.BoolOp):
+        parts = [literal_dnf(v, pol, limit) for v in test.values]
+        is_or = isinstance(test.op, ast.Or) == pol
+        if is_or:
+            out = [c for p_ in parts for c in p_]
+        else:
+            out = [[]]
+            for p_ in parts:
+                out = [a + b for a in out for b in p_]
+                if len(out) > limit:
+                    raise Inconclusive('guard too large for a disjunctive normal form')
+        return out
+    return [[(test, pol)]]
+
+
+def guard_dnf(node, stop=None):
+    """DNF of the conjunction of all guards controlling `node`"""
+    out = [[]]
+    for t, pol in guards_of(node, stop):
+        d = literal_dnf(t, pol)
+        out = [a + b for a in out for b in d]
+        if len(out) > 64:
+            raise Inconclusive('guard too large for a disjunctive normal form')
+    return out
+
+
+def implicit_guards(node, stop=None):
+    """guards_of plus the negated tests of earlier sibling `if c: return/raise/continue/break` statements (fall-through guards)"""
+    out = list(guards_of(node, stop))
+    child = node
+    for p in parents(node):
+        for field in ('body', 'orelse', 'finalbody'):
+            blk = getattr(p, field, None)
+            if isinstance(blk, list) and any(child is s for s in blk):
+                for s in blk:
+                    if s is child:
+                        break
+                    if isinstance(s, ast.If) and not s.orelse and s.body and isinstance(s.body[-1], (ast.Return, ast.Raise, ast.Continue, ast.Break)):
+                        out.append((s.test, False))
+        if p is stop or isinstance(p, (ast.FunctionDef, ast.AsyncFunctionDef, ast.Lambda)):
+            break
+        child = p
+    return out
+
+
+def substitute(node, mapping):
+    """copy of an expression with parameter names replaced by argument expressions"""
+    from ..core.sym import clone
+
+    class T(ast.NodeTransformer):
+        def visit_Name(self, n):
+            if n.id in mapping and isinstance(n.ctx, ast.Load):
+                return clone(mapping[n.id])
+            return n
+    return T().visit(clone(node))
+
+
+def guarded_values(P, f, value, at, stop=None):
+    """[(value expr, [(literal text, polarity)])]: the alternatives of `value` (evaluated at statement `at` of f) with the
+    conditions selecting each; a call of a package helper with several returns is split per return"""
+    base = []
+    for t, pol in implicit_guards(at, stop):
+        for conj in [literal_dnf(t, pol)]:
+            if len(conj) == 1:
+                base.extend((u(a), pl) for a, pl in conj[0])
+    if isinstance(value, ast.IfExp):
+        out = []
+        for v, pol in ((value.body, True), (value.orelse, False)):
+            d = literal_dnf(value.test, pol)
+            extra = [(u(a), pl) for a, pl in d[0]] if len(d) == 1 else []
+            out.extend((v2, base + extra + g2) for v2, g2 in guarded_values(P, f, v, at, stop=at))
+        return [(v, [x for x in g if x not in base] + base) for v, g in out]
+    if isinstance(value, ast.Call):
+        c = callee(P, f, value)
+        g = P.funcs.get(c) if c else None
+        if g is not None and c.startswith('csep.'):
+            rets = [r for r in returns(g) if r.value is not None]
+            m, okb = bind_args(g, value)
+            if okb and 1 <= len(rets) <= 4:
+                out = []
+                for r in rets:
+                    gs = []
+                    for t, pol in implicit_guards(r, g.node):
+                        d = literal_dnf(substitute(t, m), pol)
+                        if len(d) == 1:
+                            gs.extend((u(a), pl) for a, pl in d[0])
+                    out.append((substitute(r.value, m), base + gs))
+                return out
+    return [(value, base)]
+
+
+def accumulation_as_sum(f, var):
+    """`var = 0; for t in it: var += term` (one unconditional loop, no break/continue, nothing else writes var)
+    -> the equivalent expression sum([term for t in it]); None if the shape differs"""
+    asg = find_assignments(f, var)
+    inits = [a for a in asg if isinstance(a, ast.Assign)]
+    augs = [a for a in asg if isinstance(a, ast.AugAssign)]
+    if len(inits) != 1 or len(augs) != 1 or len(asg) != 2 or const_value(inits[0].value) != 0 or not isinstance(augs[0].op, ast.Add):
+        return None
+    lp = in_loop(augs[0], f.node)
+    if not isinstance(lp, ast.For) or lp.orelse or in_loop(inits[0], f.node) is not None or in_loop(lp, f.node) is not None:
+        return None
+    if not any(augs[0] is s_ for s_ in lp.body):
+        return None          # conditional accumulation
+    if any(isinstance(x, (ast.Break, ast.Continue, ast.Return)) for x in ast.walk(lp)):
+        return None
+    if not isinstance(lp.target, ast.Name):
+        return None
+    # the term may only read the loop variable and loop-invariant names
+    written = {t.id for s_ in ast.walk(lp) for t in ast.walk(s_) if isinstance(t, ast.Name) and isinstance(t.ctx, ast.Store)}
+    reads = {t.id for t in ast.walk(augs[0].value) if isinstance(t, ast.Name)}
+    if (reads & written) - {lp.target.id}:
+        return None
+    if f.cfg.node_of(inits[0]) is None or not f.cfg.dominates(f.cfg.node_of(inits[0]), f.cfg.node_of(lp)):
+        return None
+    comp = ast.ListComp(elt=augs[0].value, generators=[ast.comprehension(target=lp.target, iter=lp.iter, ifs=[], is_async=0)])
+    return ast.Call(func=ast.Name(id='sum', ctx=ast.Load()), args=[comp], keywords=[])
+
+
 def in_loop(node, stop=None):
     for p in parents(node):
         if p is stop or isinstance(p, (ast.FunctionDef, ast.AsyncFunctionDef)):
